@@ -25,8 +25,8 @@ ASSUMPTIONS = [
     "ASCII '~' in spec text stands for U+00B7",
 ]
 
-QUICK = ["nest_q", "counts_q", "hyd_q", "decor_q", "symsuf"]
-THOROUGH = ["nest_t", "counts_t", "hyd_t", "decor_t", "symsuf"]
+QUICK = ["nest_q", "counts_q", "hyd_q", "decor_q", "prefix2_q", "symsuf"]
+THOROUGH = ["nest_t", "counts_t", "hyd_t", "decor_t", "prefix2_t", "symsuf"]
 
 ARROWS = {
     "string": {"Reaction": "->", "Equilibrium": "="},
@@ -76,7 +76,12 @@ def replay_case(case):
     for what, mk, pidx in (("Substance.from_formula", lambda: Substance.from_formula(t), None),
                            ("Species.from_formula", lambda: Species.from_formula(t), exp["phase_default"]),
                            ("Species.from_formula[phases=(aq),(g)]",
-                            lambda: Species.from_formula(t, phases=("(aq)", "(g)")), exp["phase_alt"])):
+                            lambda: Species.from_formula(t, phases=("(aq)", "(g)")), exp["phase_alt"]),
+                           # an explicit phase_idx= wins over the suffix; the suffix stays a suffix
+                           ("Species.from_formula[phase_idx=4]",
+                            lambda: Species.from_formula(t, phase_idx=4), exp["phase_given"]),
+                           ("Species.from_formula[phases=(aq),(g);phase_idx=4]",
+                            lambda: Species.from_formula(t, phases=("(aq)", "(g)"), phase_idx=4), exp["phase_given"])):
         try:
             sub = mk()
         except Exception as e:
